@@ -40,7 +40,7 @@ def limit_tests(body, adt, buf_field):
         sides = [('a', 'b'), ('b', 'a')]
         for x, y in sides:
             cy = info[y]
-            if cy.get('kind') == 'const' and 'MAX_BUFFER_SIZE' in (cy.get('def') or ''):
+            if cy.get('kind') == 'const' and (cy.get('def') or '').split('::')[-1] == 'MAX_BUFFER_SIZE':
                 vx = info[x]
                 is_len = vx.get('kind') == 'call' and vx['callee'].get('name') in ('len', 'capacity') and \
                     C.trace_field(body, vx['args'][0], adt) == buf_field
@@ -57,6 +57,28 @@ def limit_tests(body, adt, buf_field):
                             b_l = i2['b'].get('kind') == 'call' and i2['b']['callee'].get('name') == 'len' and \
                                 C.trace_field(body, i2['b']['args'][0], adt) == buf_field
                             if a_f and b_l and sw in body.reachable(i2['true']) and sw not in body.reachable(i2['false'], avoid={sw2}):
+                                eq_len = True
+                if not (is_len or eq_len):
+                    # a local holding the tested value (`let filled = ..; if filled == buffer.len() { if MAX <= filled ..`)
+                    def origin(op):
+                        tr_ = body.trace(op)
+                        if tr_.get('kind') == 'bin':
+                            return ('bin', tr_.get('block'), tr_.get('stmt'))
+                        if tr_.get('kind') == 'local':
+                            return ('local', tr_.get('l'))
+                        if tr_.get('kind') == 'place':
+                            return ('place', tr_['place'].get('s'))
+                        return None
+                    ox = origin(info[x + '_op'])
+                    for sw2 in range(body.n):
+                        if ox is None or body.is_cleanup(sw2) or body.term(sw2)['k'] != 'switch' or not body.dominates(sw2, sw) or sw2 == sw:
+                            continue
+                        i2 = body.switch_info(sw2)
+                        if not (i2 and i2.get('kind') == 'cmp' and i2['op'] == 'Eq'):
+                            continue
+                        for p_, q_ in (('a', 'b'), ('b', 'a')):
+                            l_ok = i2[q_].get('kind') == 'call' and i2[q_]['callee'].get('name') == 'len' and C.trace_field(body, i2[q_]['args'][0], adt) == buf_field
+                            if l_ok and origin(i2[p_ + '_op']) == ox and sw in body.reachable(i2['true']) and sw not in body.reachable(i2['false'], avoid={sw2}):
                                 eq_len = True
                 if not (is_len or eq_len):
                     continue
@@ -113,7 +135,7 @@ def check_crate(fx, rep, crate, cfg):
                     import sym as SY
                     step_ok = False
                     amount = None
-                    sz = crate.consts.get('connection::BUFFER_SIZE', {}).get('val')
+                    sz = ([c.get('val') for p_, c in crate.consts.items() if p_.split('::')[-1] == 'BUFFER_SIZE' and p_.startswith('connection::')] or [None])[0]
                     amount_args = t['args'][1:]
                     if t['callee'].get('name') == 'resize' and len(t['args']) >= 2:
                         # resize(new_len, fill): the amount is new_len - len; accept exactly len(buffer) + step
@@ -181,8 +203,11 @@ def check_crate(fx, rep, crate, cfg):
                       'BufferOverflow can be returned although the buffer is below the limit (frames smaller than the limit refused)')
     rep.floor('R17.3', 2, 'BufferOverflow construction sites')
     # R17.5 constants
-    mx = crate.consts.get('connection::MAX_BUFFER_SIZE', {}).get('val')
-    st = crate.consts.get('connection::BUFFER_SIZE', {}).get('val')
+    def const_named(nm):
+        hits = [c for p_, c in crate.consts.items() if p_.split('::')[-1] == nm and p_.startswith('connection::')]
+        return hits[0].get('val') if len(hits) == 1 else None
+    mx = const_named('MAX_BUFFER_SIZE')
+    st = const_named('BUFFER_SIZE')
     rep.check(bool(mx) and bool(st) and mx % st == 0 and mx >= st > 0, 'R17.5', 'limit-multiple-of-step|%s' % cfg, 'zlink-core/src/connection/mod.rs',
               'MAX_BUFFER_SIZE (%s) is a positive multiple of BUFFER_SIZE (%s)' % (mx, st),
               'MAX_BUFFER_SIZE (%s) is not a positive multiple of BUFFER_SIZE (%s): the exact-equality growth test can step over the limit' % (mx, st))
